@@ -135,9 +135,11 @@ PollDel(fd) ==
   /\ taint' = TRUE /\ UNCHANGED <<jobs, timers, sigs, sigq, now, seqno, running, stopReq, disp, dry, turns, elig, lastTimeout>>
 
 PollModOk(fd) == ActiveReg(fd) # {}
+(* a registration whose priority changes while its callback is already queued is served from its old level:
+   turn counting is suspended for that iteration *)
 PollMod(fd, p, ev) ==
   /\ fds' = [r \in DOMAIN fds |-> IF r \in ActiveReg(fd) THEN [fds[r] EXCEPT !.p = p, !.ev = ev] ELSE fds[r]]
-  /\ UNCHANGED <<jobs, timers, sigs, kreg, sigq, now, seqno, running, stopReq, disp, dry, turns, elig, taint, lastTimeout>>
+  /\ taint' = TRUE /\ UNCHANGED <<jobs, timers, sigs, kreg, sigq, now, seqno, running, stopReq, disp, dry, turns, elig, lastTimeout>>
 
 (* the application closes a descriptor: the kernel forgets it *)
 FdClose(fd) ==
